@@ -40,6 +40,11 @@ type AbsStr struct {
 	NonE  bool  // when !Exact: known non-empty (else: may be empty)
 }
 
+// OpaqueV is a value the analysis only allows to be passed around (e.g. a
+// string handed to a comparator that is replaced by an oracle). Any operation
+// that inspects it yields Unknown, so control flow depending on it forks.
+type OpaqueV struct{ Name string }
+
 // Ptr addresses a component of a heap object.
 type Ptr struct {
 	Obj  int
@@ -175,6 +180,10 @@ func fmtVal(v Val, ptrName func(int) string) string {
 		return "nil"
 	case Unknown:
 		return "?"
+	case OpaqueV:
+		return "opaque(" + x.Name + ")"
+	case PosInt:
+		return "int>=1"
 	case SymV:
 		return fmt.Sprintf("s%d", x.C)
 	case TapeStr:
